@@ -3,7 +3,7 @@
     (NeverLonger, NotEarlier, Present, Reported) and satisfies WellFormed / KeysNeeded / SubsNeeded, exhaustively over
     small histories; three configurations with one pinned behaviour switched back on each must FAIL (the model can
     tell the repaired behaviour from the one that was pinned);
-(b) MCCacheCases.tla: 26 880 four-step operation sequences, each checked on the model and replayed on the real
+(b) MCCacheCases.tla: 42 240 four-step operation sequences, each checked on the model and replayed on the real
     DnsCache through the verif-hooks facade (driver family 'cachecases', specification -> implementation);
 (c) driver family 'cacherand': random operation sequences over a larger vocabulary (implementation -> specification);
 both judged operation by operation by TraceCache.tla: results and the complete content of the cache must equal the model's."""
@@ -12,7 +12,7 @@ import re
 
 from . import core, daemon
 
-CFGS = ["TraceCache.cfg", "MCCache.cfg", "MCCacheSub.cfg", "MCCacheT.cfg", "MCCacheCases.cfg"]
+CFGS = ["TraceCache.cfg", "MCCache.cfg", "MCCacheSub.cfg", "MCCacheT.cfg", "MCCacheSubT.cfg", "MCCacheCases.cfg"]
 SWITCHES = ("EagerKeys", "SplitByFlush", "KeepSubs")
 NEGATIVE = [("MCCacheEager.cfg", "KeysNeeded"), ("MCCacheSplit.cfg", "NotEarlier|NeverLonger"), ("MCCacheKeepSubs.cfg", "SubsNeeded")]
 
@@ -46,12 +46,12 @@ def _cases(prop):
     return r, path, n
 
 
-def step(prop, prefixes, mc_cfgs, v, tier, seed):
+def step(prop, prefixes, mc_cfgs, v, tier, seed, mc_thorough=()):
     """Runs (a)-(c); returns what run_group merges into its account."""
     _consistent()
     thorough = tier == "thorough"
     mcs = []
-    for cfg in (["MCCacheT.cfg"] if thorough else []) + mc_cfgs:
+    for cfg in (list(mc_thorough) if thorough else []) + mc_cfgs:
         r = core.tlc_mc("MCCache", cfg, "%s-%s" % (prop.lower(), cfg.replace(".cfg", "")), workers=16 if thorough else 8, timeout=3000)
         mcs.append(r)
         if not r["ok"]:
@@ -88,6 +88,18 @@ def step(prop, prefixes, mc_cfgs, v, tier, seed):
     return {"mcs": mcs, "files": files_all, "total": total, "hits": hits, "ncases": ncases}
 
 
+def light(prop, prefixes, v, tier, seed):
+    """The random family alone, for the properties that own a few clauses of the cache monitor (C10: known answers,
+    C18: what the removal of an interface or of an IP version drops and reports)."""
+    _consistent()
+    thorough = tier == "thorough"
+    n = 3000 if thorough else 300
+    files, _ = daemon.drive("cacherand", prop, seed, tier, n, 8 if thorough else 4)
+    res = daemon.validate("TraceCache", "TraceCache.cfg", files, prop.lower() + "-cacherand")
+    tot, h, _ = daemon.collect(prop, prefixes, res, files, v, {"family": "cacherand", "seed": seed, "tier": tier})
+    return {"mcs": [], "files": files, "total": tot, "hits": h}
+
+
 def replay(prop, prefixes, case, v):
     a = case["args"]
     sid = case["scenario"]["id"]
@@ -102,9 +114,10 @@ def replay(prop, prefixes, case, v):
     return v.finish()
 
 
-RULE = (" Cache mechanism: MCCache (refinement of Heard.tla by Cache.tla over all histories of <= 3 arrivals of PTR / subtype PTR / two SRV / two "
-        "address records, TTL 0-2 s, either flush bit, for us or not, evictions and verify requests on a 500 ms grid) plus three negative controls "
-        "that must fail; family 'cachecases': 26 880 TLC-enumerated four-step sequences (first record, second record of the same or a related set, "
+RULE = (" Cache mechanism: MCCache (refinement of Heard.tla by Cache.tla over all histories of <= 3 arrivals of PTR / SRV / address (C20: PTR / "
+        "subtype PTR / SRV; thorough: also two SRV and two address records, 32.6 M states) with TTL 0 or 2 s, either flush bit, for us or not, "
+        "evictions and verify requests on a 500 ms grid) plus three negative controls "
+        "that must fail; family 'cachecases': 42 240 TLC-enumerated four-step sequences (first record, second record of the same or a related set, "
         "one of eviction / verify / four refresh look-ups / removal of the type, final eviction) replayed on the real DnsCache, every 13th on every "
         "change, all in the thorough tier; family 'cacherand': 10-120 random operations per scenario over 3 instances, 2 hosts in up to 3 "
         "spellings, 2 interfaces, TTL palettes from 0 s to 10^6 s, unique records with and without the flush bit.")
